@@ -280,10 +280,28 @@ theorem filterKeys_true (m : Store) (p : Bytes → Bool) (h : ∀ k, p k = true)
   have : m.entries.filter (fun x => p x.1) = m.entries := List.filter_eq_self.mpr (fun x _ => h x.1)
   rw [this]
 
+/-- what one served DeleteRange request does to a key -/
+theorem regionDeleteRange_get (m : Store) (R : Region) (s e k : Bytes) :
+    (regionDeleteRange m R s e).get k = if inRange s (toBound e) k && inRegion R k then none else m.get k := by
+  unfold regionDeleteRange
+  rw [OMap.get_filterKeys]
+  cases inRange s (toBound e) k && inRegion R k <;> simp
+
+/-- the request of one iteration: `[start, actualEnd)` lies inside the located region and inside `[start, end)`,
+    and what is left is `[actualEnd, end)` -/
+theorem deleteRange_piece (L : Layout) (start end_ aE k : Bytes) (hc : fwdCond start end_ = true)
+    (hA : (aE = (locate L start).2 ∧ aE ≠ [] ∧ (end_ = [] ∨ aE < end_)) ∨
+          (aE = end_ ∧ ¬ ((locate L start).2 ≠ [] ∧ (end_ = [] ∨ (locate L start).2 < end_)))) :
+    (inRange start (toBound aE) k && inRegion (locate L start) k) = inRange start (toBound aE) k ∧
+    (inRange start (toBound end_) k = (inRange start (toBound aE) k || (decide (aE ≠ []) && inRange aE (toBound end_) k))) := by
+  obtain ⟨hl1, hl2⟩ := locate_spec L start
+  simp only [fwdCond] at hc
+  constructor <;> range_pointwise
+
 theorem deleteRangeLoop_spec (end_ : Bytes) :
-    ∀ (sc : SScript) (start : Bytes) (m : Store) (tr : STrace) (res : Store) (tr' : STrace),
-      deleteRangeLoop end_ sc start m tr = some (res, tr') →
-      res = m.eraseRange start (toBound end_) := by
+    ∀ (sc : SScript) (start : Bytes) (m : Store) (tr : STrace),
+      (deleteRangeLoop end_ sc start m tr).2.2 = true →
+      (deleteRangeLoop end_ sc start m tr).1 = m.eraseRange start (toBound end_) := by
   have stop : ∀ (start : Bytes) (m : Store), ¬ (fwdCond start end_ = true) → m = m.eraseRange start (toBound end_) := by
     intro start m h
     unfold OMap.eraseRange
@@ -294,59 +312,110 @@ theorem deleteRangeLoop_spec (end_ : Bytes) :
   intro sc
   induction sc with
   | nil =>
-    intro start m tr res tr' h
-    simp only [deleteRangeLoop] at h
-    split at h
-    · simp at h
-    · rename_i hc
-      simp only [Option.some.injEq, Prod.mk.injEq] at h
-      rw [← h.1]; exact stop start m hc
+    intro start m tr h
+    simp only [deleteRangeLoop] at h ⊢
+    apply stop
+    intro hc; simp [hc] at h
   | cons e rest ih =>
-    intro start m tr res tr' h
+    intro start m tr h
     cases e with
     | none =>
-      simp only [deleteRangeLoop] at h
-      split at h
-      · exact ih _ _ _ _ _ h
-      · rename_i hc
-        simp only [Option.some.injEq, Prod.mk.injEq] at h
-        rw [← h.1]; exact stop start m hc
+      simp only [deleteRangeLoop] at h ⊢
+      by_cases hc : fwdCond start end_ = true
+      · simp only [hc, if_true] at h ⊢
+        exact ih _ _ _ h
+      · simp only [hc, if_false] at h ⊢
+        exact stop start m hc
     | some L =>
-      simp only [deleteRangeLoop] at h
-      split at h
-      · rename_i hc
-        obtain ⟨hl1, hl2⟩ := locate_spec L start
-        simp only [fwdCond] at hc
+      simp only [deleteRangeLoop] at h ⊢
+      by_cases hc : fwdCond start end_ = true
+      · simp only [hc, if_true] at h ⊢
         have fin : ∀ aE : Bytes, (aE = (locate L start).2 ∧ aE ≠ [] ∧ (end_ = [] ∨ aE < end_)) ∨
               (aE = end_ ∧ ¬ ((locate L start).2 ≠ [] ∧ (end_ = [] ∨ (locate L start).2 < end_))) →
-            (if aE = [] then some (regionDeleteRange m (locate L start) start aE, tr ++ [(start, aE, 0)])
-              else deleteRangeLoop end_ rest aE (regionDeleteRange m (locate L start) start aE) (tr ++ [(start, aE, 0)]))
-              = some (res, tr') → res = m.eraseRange start (toBound end_) := by
+            (if aE = [] then (regionDeleteRange m (locate L start) start aE, tr ++ [(start, aE, 0)], true)
+              else deleteRangeLoop end_ rest aE (regionDeleteRange m (locate L start) start aE) (tr ++ [(start, aE, 0)])).2.2 = true →
+            (if aE = [] then (regionDeleteRange m (locate L start) start aE, tr ++ [(start, aE, 0)], true)
+              else deleteRangeLoop end_ rest aE (regionDeleteRange m (locate L start) start aE) (tr ++ [(start, aE, 0)])).1
+              = m.eraseRange start (toBound end_) := by
           intro aE hA h
-          split at h
-          · rename_i he
-            simp only [Option.some.injEq, Prod.mk.injEq] at h
-            rw [← h.1]
+          obtain ⟨hl1, hl2⟩ := locate_spec L start
+          simp only [fwdCond] at hc
+          by_cases he : aE = []
+          · simp only [he, if_true]
             unfold regionDeleteRange OMap.eraseRange
             apply filterKeys_congr
             intro k
+            subst he
             range_pointwise
-          · rename_i he
-            have := ih _ _ _ _ _ h
-            rw [this]
+          · simp only [he, if_false] at h ⊢
+            rw [ih _ _ _ h]
             unfold regionDeleteRange OMap.eraseRange
             rw [OMap.filterKeys_filterKeys]
             apply filterKeys_congr
             intro k
             range_pointwise
         by_cases hA : (locate L start).2 ≠ [] ∧ (end_ = [] ∨ (locate L start).2 < end_)
-        · simp only [if_pos hA] at h
+        · simp only [if_pos hA] at h ⊢
           exact fin _ (Or.inl ⟨rfl, hA.1, hA.2⟩) h
-        · simp only [if_neg hA] at h
+        · simp only [if_neg hA] at h ⊢
           exact fin _ (Or.inr ⟨rfl, hA⟩) h
-      · rename_i hc
-        simp only [Option.some.injEq, Prod.mk.injEq] at h
-        rw [← h.1]; exact stop start m hc
+      · simp only [hc, if_false] at h ⊢
+        exact stop start m hc
+
+/-- DeleteRange is not atomic; whatever the script (also when the call does not complete), every key is either
+    untouched or a key of `[start, end)` that has been deleted — nothing outside the range is ever touched and no
+    value is ever changed -/
+theorem deleteRangeLoop_any (end_ : Bytes) :
+    ∀ (sc : SScript) (start : Bytes) (m : Store) (tr : STrace) (k : Bytes),
+      (deleteRangeLoop end_ sc start m tr).1.get k = m.get k ∨
+      (inRange start (toBound end_) k = true ∧ (deleteRangeLoop end_ sc start m tr).1.get k = none) := by
+  intro sc
+  induction sc with
+  | nil => intro start m tr k; simp [deleteRangeLoop]
+  | cons e rest ih =>
+    intro start m tr k
+    cases e with
+    | none =>
+      simp only [deleteRangeLoop]
+      by_cases hc : fwdCond start end_ = true
+      · simp only [hc, if_true]; exact ih _ _ _ _
+      · simp [hc]
+    | some L =>
+      simp only [deleteRangeLoop]
+      by_cases hc : fwdCond start end_ = true
+      · simp only [hc, if_true]
+        have fin : ∀ aE : Bytes, (aE = (locate L start).2 ∧ aE ≠ [] ∧ (end_ = [] ∨ aE < end_)) ∨
+              (aE = end_ ∧ ¬ ((locate L start).2 ≠ [] ∧ (end_ = [] ∨ (locate L start).2 < end_))) →
+            (if aE = [] then (regionDeleteRange m (locate L start) start aE, tr ++ [(start, aE, 0)], true)
+              else deleteRangeLoop end_ rest aE (regionDeleteRange m (locate L start) start aE) (tr ++ [(start, aE, 0)])).1.get k = m.get k ∨
+            (inRange start (toBound end_) k = true ∧
+             (if aE = [] then (regionDeleteRange m (locate L start) start aE, tr ++ [(start, aE, 0)], true)
+              else deleteRangeLoop end_ rest aE (regionDeleteRange m (locate L start) start aE) (tr ++ [(start, aE, 0)])).1.get k = none) := by
+          intro aE hA
+          obtain ⟨hp1, hp2⟩ := deleteRange_piece L start end_ aE k hc hA
+          have hstep := regionDeleteRange_get m (locate L start) start aE k
+          rw [hp1] at hstep
+          by_cases he : aE = []
+          · simp only [he, if_true]
+            rw [he] at hstep hp2
+            by_cases hin : inRange start (toBound []) k = true
+            · right
+              refine ⟨by rw [hp2]; simp [hin], by simp [hstep, hin]⟩
+            · left; simp [hstep, hin]
+          · simp only [he, if_false]
+            rcases ih aE (regionDeleteRange m (locate L start) start aE) (tr ++ [(start, aE, 0)]) k with h1 | ⟨h1, h2⟩
+            · by_cases hin : inRange start (toBound aE) k = true
+              · right
+                refine ⟨by rw [hp2]; simp [hin], by rw [h1, hstep]; simp [hin]⟩
+              · left; rw [h1, hstep]; simp [hin]
+            · right
+              exact ⟨by rw [hp2]; simp [he, h1], h2⟩
+        by_cases hA : (locate L start).2 ≠ [] ∧ (end_ = [] ∨ (locate L start).2 < end_)
+        · simp only [if_pos hA]
+          exact fin _ (Or.inl ⟨rfl, hA.1, hA.2⟩)
+        · simp only [if_neg hA]
+          exact fin _ (Or.inr ⟨rfl, hA⟩)
+      · simp [hc]
 
 /-! ## checksum -/
 
@@ -450,13 +519,16 @@ structure MkSpec (mk : Layout → List Item → List (Region × List Item)) : Pr
   sound : ∀ G items R b, (R, b) ∈ mk G items → ∀ it ∈ b, it ∈ items ∧ inRegion R it.1 = true
   complete : ∀ G items it, it ∈ items → ∃ R b, (R, b) ∈ mk G items ∧ it ∈ b
 
+theorem view_served (s : BState) (b : List Item) : view (served s b) = view s := rfl
+theorem view_failed (s : BState) (b : List Item) : view (failed s b) = view s := rfl
+
 theorem runBatches_spec {P : View → List Bytes → View → Prop} (hP : Eff P) (V : Item → Prop)
-    (recur : BState → List Item → BScript → Option (BState × BScript))
+    (recur : BState → List Item → BScript → BState × Option BScript)
     (exec : BState → Region → List Item → BState)
     (hexec : ∀ s R b, (∀ it ∈ b, V it ∧ inRegion R it.1 = true) → P (view s) (keysOf b) (view (exec s R b)))
-    (hrec : ∀ s b sc s' sc', recur s b sc = some (s', sc') → (∀ it ∈ b, V it) → P (view s) (keysOf b) (view s')) :
+    (hrec : ∀ s b sc s' sc', recur s b sc = (s', some sc') → (∀ it ∈ b, V it) → P (view s) (keysOf b) (view s')) :
     ∀ (bs : List (Region × List Item)) (s : BState) (outs : List Bool) (sc : BScript) (s' : BState) (sc' : BScript),
-      runBatches recur exec s bs outs sc = some (s', sc') →
+      runBatches recur exec s bs outs sc = (s', some sc') →
       (∀ Rb ∈ bs, ∀ it ∈ Rb.2, V it ∧ inRegion Rb.1 it.1 = true) →
       P (view s) (bs.flatMap (fun Rb => keysOf Rb.2)) (view s') := by
   intro bs
@@ -465,7 +537,7 @@ theorem runBatches_spec {P : View → List Bytes → View → Prop} (hP : Eff P)
     intro s outs sc s' sc' h _
     cases outs with
     | nil =>
-      simp only [runBatches, Option.some.injEq, Prod.mk.injEq] at h
+      simp only [runBatches, Prod.mk.injEq, Option.some.injEq] at h
       rw [← h.1]; exact hP.refl _
     | cons o os => simp [runBatches] at h
   | cons Rb bs ih =>
@@ -483,6 +555,7 @@ theorem runBatches_spec {P : View → List Bytes → View → Prop} (hP : Eff P)
         simp only [runBatches] at h
         have h1 := hexec s R b hvb
         have h2 := ih _ _ _ _ _ h hvt
+        rw [view_served] at h2
         exact hP.trans _ _ _ _ _ h1 h2
       | false =>
         simp only [runBatches] at h
@@ -490,6 +563,7 @@ theorem runBatches_spec {P : View → List Bytes → View → Prop} (hP : Eff P)
         · simp at h
         · rename_i s1 sc1 hr
           have h1 := hrec _ _ _ _ _ hr (fun it hit => (hvb it hit).1)
+          rw [view_failed] at h1
           have h2 := ih _ _ _ _ _ h hvt
           exact hP.trans _ _ _ _ _ h1 h2
 
@@ -500,7 +574,7 @@ theorem sendBatch_spec {P : View → List Bytes → View → Prop} (hP : Eff P) 
     (hprepK : ∀ items k, k ∈ keysOf (prep items) ↔ k ∈ keysOf items)
     (hexec : ∀ s R b, (∀ it ∈ b, V it ∧ inRegion R it.1 = true) → P (view s) (keysOf b) (view (exec s R b))) :
     ∀ (fuel : Nat) (s : BState) (items : List Item) (sc : BScript) (s' : BState) (sc' : BScript),
-      sendBatch mk prep exec fuel s items sc = some (s', sc') → (∀ it ∈ prep items, V it) →
+      sendBatch mk prep exec fuel s items sc = (s', some sc') → (∀ it ∈ prep items, V it) →
       P (view s) (keysOf items) (view s') := by
   intro fuel
   induction fuel with
@@ -511,7 +585,7 @@ theorem sendBatch_spec {P : View → List Bytes → View → Prop} (hP : Eff P) 
     | nil => simp [sendBatch] at h
     | cons e sc =>
       simp only [sendBatch] at h
-      have hrec : ∀ s b sc s' sc', sendBatch mk prep exec fuel s b sc = some (s', sc') → (∀ it ∈ b, V it) →
+      have hrec : ∀ s b sc s' sc', sendBatch mk prep exec fuel s b sc = (s', some sc') → (∀ it ∈ b, V it) →
           P (view s) (keysOf b) (view s') := fun s b sc s' sc' hh hb => ih s b sc s' sc' hh (hprepV b hb)
       have hv : ∀ Rb ∈ mk e.layout (prep items), ∀ it ∈ Rb.2, V it ∧ inRegion Rb.1 it.1 = true := by
         intro Rb hRb it hit
@@ -530,6 +604,69 @@ theorem sendBatch_spec {P : View → List Bytes → View → Prop} (hP : Eff P) 
       · rintro ⟨it, hit, rfl⟩
         obtain ⟨R, b, hRb, hib⟩ := hmk.complete e.layout _ it hit
         exact ⟨(R, b), hRb, it, hib, rfl⟩
+
+/-! ### invariants of the NON-ATOMIC batch calls: they hold in the state reached so far, whether the call
+    completes or not (every served batch is one atomic step) -/
+
+theorem runBatches_inv (I : BState → Prop) (V : Item → Prop)
+    (recur : BState → List Item → BScript → BState × Option BScript)
+    (exec : BState → Region → List Item → BState)
+    (hserved : ∀ s R b, I s → (∀ it ∈ b, V it ∧ inRegion R it.1 = true) → I (served (exec s R b) b))
+    (hfailed : ∀ s b, I s → I (failed s b))
+    (hrec : ∀ s b sc, I s → (∀ it ∈ b, V it) → I (recur s b sc).1) :
+    ∀ (bs : List (Region × List Item)) (s : BState) (outs : List Bool) (sc : BScript), I s →
+      (∀ Rb ∈ bs, ∀ it ∈ Rb.2, V it ∧ inRegion Rb.1 it.1 = true) →
+      I (runBatches recur exec s bs outs sc).1 := by
+  intro bs
+  induction bs with
+  | nil =>
+    intro s outs sc hI _
+    cases outs <;> simpa [runBatches] using hI
+  | cons Rb bs ih =>
+    intro s outs sc hI hv
+    obtain ⟨R, b⟩ := Rb
+    have hvb := hv (R, b) (List.mem_cons_self ..)
+    have hvt : ∀ Rb ∈ bs, ∀ it ∈ Rb.2, V it ∧ inRegion Rb.1 it.1 = true :=
+      fun Rb hRb => hv Rb (List.mem_cons_of_mem _ hRb)
+    cases outs with
+    | nil => simpa [runBatches] using hI
+    | cons o os =>
+      cases o with
+      | true =>
+        simp only [runBatches]
+        exact ih _ _ _ (hserved s R b hI hvb) hvt
+      | false =>
+        simp only [runBatches]
+        have h1 := hrec (failed s b) b sc (hfailed s b hI) (fun it hit => (hvb it hit).1)
+        split
+        · rename_i s1 hr; rw [hr] at h1; exact h1
+        · rename_i s1 sc1 hr
+          rw [hr] at h1
+          exact ih _ _ _ h1 hvt
+
+theorem sendBatch_inv (I : BState → Prop) (V : Item → Prop)
+    (mk : Layout → List Item → List (Region × List Item)) (prep : List Item → List Item)
+    (exec : BState → Region → List Item → BState) (hmk : MkSpec mk)
+    (hprepV : ∀ items, (∀ it ∈ items, V it) → ∀ it ∈ prep items, V it)
+    (hserved : ∀ s R b, I s → (∀ it ∈ b, V it ∧ inRegion R it.1 = true) → I (served (exec s R b) b))
+    (hfailed : ∀ s b, I s → I (failed s b)) :
+    ∀ (fuel : Nat) (s : BState) (items : List Item) (sc : BScript), I s → (∀ it ∈ prep items, V it) →
+      I (sendBatch mk prep exec fuel s items sc).1 := by
+  intro fuel
+  induction fuel with
+  | zero => intro s items sc hI _; simpa [sendBatch] using hI
+  | succ fuel ih =>
+    intro s items sc hI hV
+    cases sc with
+    | nil => simpa [sendBatch] using hI
+    | cons e sc =>
+      simp only [sendBatch]
+      apply runBatches_inv I V _ exec hserved hfailed
+        (fun s b sc hI hb => ih s b sc hI (hprepV b hb)) _ _ _ _ hI
+      intro Rb hRb it hit
+      obtain ⟨R, b⟩ := Rb
+      have := hmk.sound _ _ _ _ hRb it hit
+      exact ⟨hV it this.1, this.2⟩
 
 /-! ### the two batch builders partition the items and keep every item inside its batch's region -/
 
@@ -982,7 +1119,7 @@ theorem checksumLoop_eventually_const_terminates (m : Store) (end_ : Bytes) (L :
       · rfl
 
 theorem deleteRangeLoop_stop (end_ : Bytes) (he : end_ ≠ []) (sc : SScript) (m : Store) (tr : STrace) :
-    (deleteRangeLoop end_ sc end_ m tr).isSome = true := by
+    (deleteRangeLoop end_ sc end_ m tr).2.2 = true := by
   have hc : fwdCond end_ end_ = false := by simp [fwdCond, he, List.lt_irrefl]
   cases sc with
   | nil => simp [deleteRangeLoop, hc]
@@ -990,7 +1127,7 @@ theorem deleteRangeLoop_stop (end_ : Bytes) (he : end_ ≠ []) (sc : SScript) (m
 
 theorem deleteRangeLoop_const_terminates (end_ : Bytes) (L : Layout) :
     ∀ (n : Nat) (start : Bytes) (m : Store) (tr : STrace), above L start < n →
-      (deleteRangeLoop end_ (List.replicate n (some L)) start m tr).isSome = true := by
+      (deleteRangeLoop end_ (List.replicate n (some L)) start m tr).2.2 = true := by
   intro n
   induction n with
   | zero => intro start m tr h; omega
@@ -1017,7 +1154,7 @@ theorem deleteRangeLoop_const_terminates (end_ : Bytes) (L : Layout) :
 
 theorem deleteRangeLoop_eventually_const_terminates (end_ : Bytes) (L : Layout) (n : Nat) (hn : L.length < n) :
     ∀ (pre : SScript) (start : Bytes) (m : Store) (tr : STrace),
-      (deleteRangeLoop end_ (pre ++ List.replicate n (some L)) start m tr).isSome = true := by
+      (deleteRangeLoop end_ (pre ++ List.replicate n (some L)) start m tr).2.2 = true := by
   intro pre
   induction pre with
   | nil =>
@@ -1041,5 +1178,290 @@ theorem deleteRangeLoop_eventually_const_terminates (end_ : Bytes) (L : Layout) 
         · rfl
         · exact ih _ _ _
       · rfl
+
+/-! ## termination of the reverse loop once the layout stays constant -/
+
+theorem locateEnd_fst_mem (L : Layout) (k : Bytes) (h : (locateEnd L k).1 ≠ []) : (locateEnd L k).1 ∈ L := by
+  induction L with
+  | nil => simp [locateEnd] at h
+  | cons s L ih =>
+    simp only [locateEnd] at h ⊢
+    split
+    · rename_i hs
+      simp only [hs, if_true] at h
+      split
+      · exact List.mem_cons_self ..
+      · rename_i h2
+        simp only [h2, if_false] at h
+        exact List.mem_cons_of_mem _ (ih h)
+    · rename_i hs
+      simp only [hs, if_false] at h
+      exact List.mem_cons_of_mem _ (ih h)
+
+/-- number of split points below `k`: the progress measure of the reverse loop -/
+def below (L : Layout) (k : Bytes) : Nat := (L.filter fun s => decide (s < k)).length
+
+theorem below_lt (L : Layout) (k k' : Bytes) (hk : k' < k) (hm : k' ∈ L) : below L k' < below L k := by
+  unfold below
+  induction L with
+  | nil => simp at hm
+  | cons s L ih =>
+    have hmono : (L.filter fun s => decide (s < k')).length ≤ (L.filter fun s => decide (s < k)).length := by
+      clear ih hm
+      induction L with
+      | nil => simp
+      | cons a t iht =>
+        simp only [List.filter_cons]
+        by_cases h1 : a < k'
+        · have : a < k := by grind
+          simp [h1, this]; exact iht
+        · by_cases h2 : a < k <;> simp [h1, h2] <;> omega
+    rcases List.mem_cons.mp hm with h | h
+    · subst h
+      have h1 : ¬ k' < k' := List.lt_irrefl k'
+      simp only [List.filter_cons, h1, hk, decide_true, decide_false, if_true, List.length_cons]
+      simp; omega
+    · have := ih h
+      simp only [List.filter_cons]
+      by_cases h1 : s < k'
+      · have : s < k := by grind
+        simp [h1, this]; omega
+      · by_cases h2 : s < k <;> simp [h1, h2] <;> omega
+
+theorem rscanLoop_const_terminates (m : Store) (f : KV → KV) (end_ : Bytes) (limit : Nat) (L : Layout) :
+    ∀ (n : Nat) (start : Bytes) (acc : List KV) (tr : STrace), below L start < n →
+      (rscanLoop m f end_ limit (List.replicate n (some L)) start acc tr).isSome = true := by
+  intro n
+  induction n with
+  | zero => intro start acc tr h; omega
+  | succ n ih =>
+    intro start acc tr h
+    simp only [List.replicate_succ, rscanLoop]
+    split
+    · rename_i hc
+      split
+      · rfl
+      · rename_i he
+        apply ih
+        have hne : start ≠ [] := by
+          intro h0; rw [h0] at hc; exact absurd hc.2 (by simp)
+        have hm := locateEnd_fst_mem L start he
+        have hlt := (locateEnd_spec L start hne).1
+        have := below_lt L start _ hlt hm
+        omega
+    · rfl
+
+theorem rscanLoop_eventually_const_terminates (m : Store) (f : KV → KV) (end_ : Bytes) (limit : Nat) (L : Layout)
+    (n : Nat) (hn : L.length < n) :
+    ∀ (pre : SScript) (start : Bytes) (acc : List KV) (tr : STrace),
+      (rscanLoop m f end_ limit (pre ++ List.replicate n (some L)) start acc tr).isSome = true := by
+  intro pre
+  induction pre with
+  | nil =>
+    intro start acc tr
+    apply rscanLoop_const_terminates
+    have : below L start ≤ L.length := List.length_filter_le _ _
+    omega
+  | cons e pre ih =>
+    intro start acc tr
+    cases e with
+    | none =>
+      simp only [List.cons_append, rscanLoop]
+      split
+      · exact ih _ _ _
+      · rfl
+    | some L' =>
+      simp only [List.cons_append, rscanLoop]
+      split
+      · split
+        · rfl
+        · exact ih _ _ _
+      · rfl
+
+/-! ## non-atomic batch calls: what every reachable store looks like (served batches are the linearisation points) -/
+
+/-- all stores a batch call has gone through so far: after every served batch, and the current one -/
+def BState.stores (s : BState) : List Store := s.store :: s.hist
+
+/-- per key: old value, or (key requested and) the new value `w k` -/
+def OldOrNew (m : Store) (K : List Bytes) (w : Bytes → Option Bytes) (st : Store) : Prop :=
+  ∀ k, st.get k = m.get k ∨ (k ∈ K ∧ st.get k = w k)
+
+def IAll (J : Store → Prop) (s : BState) : Prop := ∀ st ∈ s.stores, J st
+
+theorem IAll_failed (J : Store → Prop) (s : BState) (b : List Item) (h : IAll J s) : IAll J (failed s b) := h
+
+theorem IAll_served (J : Store → Prop) (s s' : BState) (b : List Item) (h : IAll J s)
+    (hh : s'.hist = s.hist) (hJ : J s'.store) : IAll J (served s' b) := by
+  intro st hst
+  simp only [BState.stores, served, List.mem_cons, List.mem_append, List.not_mem_nil, or_false] at hst
+  rcases hst with h1 | h1 | h1
+  · rw [h1]; exact hJ
+  · exact h st (by simp only [BState.stores, List.mem_cons]; right; rw [← hh]; exact h1)
+  · rw [h1]; exact hJ
+
+theorem put_served_inv (m : Store) (K : List Bytes) (w : Bytes → Option Bytes) (s : BState) (R : Region) (b : List Item)
+    (hI : IAll (OldOrNew m K w) s)
+    (hb : ∀ it ∈ b, (w it.1 = some it.2 ∧ it.1 ∈ K) ∧ inRegion R it.1 = true) :
+    IAll (OldOrNew m K w) (served (execPut s R b) b) := by
+  refine IAll_served _ s (execPut s R b) _ hI rfl ?_
+  intro k
+  simp only [execPut]
+  rw [regionBatchPut_get w R b s.store (fun it hit => ⟨(hb it hit).1.1, (hb it hit).2⟩) k]
+  by_cases hk : k ∈ keysOf b
+  · simp only [hk, if_true]
+    obtain ⟨it, hit, rfl⟩ := List.mem_map.mp hk
+    exact Or.inr ⟨(hb it hit).1.2, trivial⟩
+  · simp only [hk, if_false]
+    exact hI s.store (by simp [BState.stores]) k
+
+theorem lastWins_valid_keys (w : Bytes → Option Bytes) (K : List Bytes) (b : List Item)
+    (h : ∀ it ∈ b, w it.1 = some it.2 ∧ it.1 ∈ K) : ∀ it ∈ lastWins b, w it.1 = some it.2 ∧ it.1 ∈ K := by
+  intro it' hit'
+  refine ⟨lastWins_valid w b (fun it hit => (h it hit).1) it' hit', ?_⟩
+  obtain ⟨it, hit, h1, _⟩ := (mem_lastWins b it').mp hit'
+  rw [h1]; exact (h it hit).2
+
+theorem delete_served_inv (m : Store) (K : List Bytes) (s : BState) (R : Region) (b : List Item)
+    (hI : IAll (OldOrNew m K (fun _ => none)) s)
+    (hb : ∀ it ∈ b, it.1 ∈ K ∧ inRegion R it.1 = true) :
+    IAll (OldOrNew m K (fun _ => none)) (served (execDelete s R b) b) := by
+  refine IAll_served _ s (execDelete s R b) _ hI rfl ?_
+  intro k
+  simp only [execDelete]
+  rw [regionBatchDelete_get R _ s.store (fun k hk => by
+    obtain ⟨it, hit, rfl⟩ := List.mem_map.mp hk
+    exact (hb it hit).2) k]
+  by_cases hk : k ∈ b.map (·.1)
+  · simp only [hk, if_true]
+    obtain ⟨it, hit, rfl⟩ := List.mem_map.mp hk
+    exact Or.inr ⟨(hb it hit).1, trivial⟩
+  · simp only [hk, if_false]
+    exact hI s.store (by simp [BState.stores]) k
+
+theorem get_served_inv (m : Store) (s : BState) (R : Region) (b : List Item)
+    (hI : IAll (fun st => st = m) s) : IAll (fun st => st = m) (served (execGet s R b) b) := by
+  refine IAll_served _ s (execGet s R b) _ hI rfl ?_
+  exact hI s.store (by simp [BState.stores])
+
+/-- a round in which every batch is served completes -/
+theorem runBatches_all_ok (recur : BState → List Item → BScript → BState × Option BScript)
+    (exec : BState → Region → List Item → BState) :
+    ∀ (bs : List (Region × List Item)) (s : BState) (sc : BScript),
+      (runBatches recur exec s bs (List.replicate bs.length true) sc).2 = some sc := by
+  intro bs
+  induction bs with
+  | nil => intro s sc; simp [runBatches]
+  | cons Rb bs ih =>
+    intro s sc
+    obtain ⟨R, b⟩ := Rb
+    simp only [List.length_cons, List.replicate_succ, runBatches]
+    exact ih _ _
+
+theorem nextOk_of_mem (sc : SScript) (L : Layout) (h : some L ∈ sc) : ∃ L', nextOk sc = some L' := by
+  induction sc with
+  | nil => simp at h
+  | cons e rest ih =>
+    cases e with
+    | none =>
+      simp only [nextOk]
+      apply ih
+      simpa using h
+    | some L0 => exact ⟨L0, rfl⟩
+
+/-! ## the batch calls complete on every script that describes a complete run -/
+
+theorem runBatches_completes (mk : Layout → List Item → List (Region × List Item)) (prep : List Item → List Item)
+    (exec : BState → Region → List Item → BState)
+    {bs : List (Region × List Item)} {os : List Bool} {sc sc' : BScript} (h : Completes mk prep bs os sc sc') :
+    sc'.length ≤ sc.length ∧
+    ∀ (F : Nat) (s : BState), sc.length ≤ F →
+      (runBatches (sendBatch mk prep exec F) exec s bs os sc).2 = some sc' := by
+  induction h with
+  | nil sc => exact ⟨Nat.le_refl _, fun F s _ => by simp [runBatches]⟩
+  | served _ ih =>
+    refine ⟨ih.1, fun F s hF => ?_⟩
+    simp only [runBatches]
+    exact ih.2 F _ hF
+  | @regrouped R b bs os e sc sc1 sc' h1 h2 ih1 ih2 =>
+    refine ⟨by have := ih1.1; have := ih2.1; simp only [List.length_cons]; omega, fun F s hF => ?_⟩
+    simp only [List.length_cons] at hF
+    obtain ⟨F', rfl⟩ : ∃ F', F = F' + 1 := ⟨F - 1, by omega⟩
+    simp only [runBatches]
+    have hn : (sendBatch mk prep exec (F' + 1) (failed s b) b (e :: sc)).2 = some sc1 := by
+      simp only [sendBatch]
+      exact ih1.2 F' _ (by omega)
+    split
+    · rename_i s1 hr
+      rw [hr] at hn; simp at hn
+    · rename_i s1 scx hr
+      rw [hr] at hn
+      simp only [Option.some.injEq] at hn
+      subst hn
+      exact ih2.2 (F' + 1) s1 (by have := ih1.1; omega)
+
+theorem sendBatch_completes (mk : Layout → List Item → List (Region × List Item)) (prep : List Item → List Item)
+    (exec : BState → Region → List Item → BState) (s : BState) (items : List Item) (e : BEntry) (sc sc' : BScript)
+    (h : Completes mk prep (mk e.layout (prep items)) e.outs sc sc') :
+    (sendBatch mk prep exec ((e :: sc).length + 1) s items (e :: sc)).2 = some sc' := by
+  simp only [List.length_cons, sendBatch]
+  exact (runBatches_completes mk prep exec h).2 _ _ (by omega)
+
+/-! ## sortedness through the batch calls, structural equalities -/
+
+theorem regionBatchPut_sorted (R : Region) (b : List Item) (m : Store) (hs : m.Sorted) : (regionBatchPut m R b).Sorted := by
+  unfold regionBatchPut
+  induction b generalizing m with
+  | nil => exact hs
+  | cons it t ih =>
+    simp only [List.foldl_cons]
+    apply ih
+    unfold regionPut
+    split
+    · exact OMap.insert_sorted hs _ _
+    · exact hs
+
+theorem regionBatchDelete_sorted (R : Region) (keys : List Bytes) (m : Store) (hs : m.Sorted) :
+    (regionBatchDelete m R keys).Sorted := by
+  unfold regionBatchDelete
+  induction keys generalizing m with
+  | nil => exact hs
+  | cons a t ih =>
+    simp only [List.foldl_cons]
+    apply ih
+    unfold regionDelete
+    split
+    · exact OMap.erase_sorted hs _
+    · exact hs
+
+theorem foldl_ins_sorted (items : List Item) (m : Store) (hs : m.Sorted) : (items.foldl ins m).Sorted := by
+  induction items generalizing m with
+  | nil => exact hs
+  | cons it t ih => simp only [List.foldl_cons]; exact ih _ (OMap.insert_sorted hs _ _)
+
+theorem foldl_erase_sorted (keys : List Bytes) (m : Store) (hs : m.Sorted) :
+    (keys.foldl (fun a k => a.erase k) m).Sorted := by
+  induction keys generalizing m with
+  | nil => exact hs
+  | cons a t ih => simp only [List.foldl_cons]; exact ih _ (OMap.erase_sorted hs _)
+
+theorem foldl_erase_get (keys : List Bytes) (m : Store) (k : Bytes) :
+    (keys.foldl (fun a k => a.erase k) m).get k = if k ∈ keys then none else m.get k := by
+  induction keys generalizing m with
+  | nil => simp
+  | cons a t ih =>
+    simp only [List.foldl_cons, List.mem_cons]
+    rw [ih, OMap.get_erase]
+    by_cases ht : k ∈ t
+    · simp [ht]
+    · by_cases hk : k = a <;> simp [ht, hk]
+
+theorem put_served_sorted (s : BState) (R : Region) (b : List Item) (hI : IAll OMap.Sorted s) :
+    IAll OMap.Sorted (served (execPut s R b) b) :=
+  IAll_served _ s (execPut s R b) _ hI rfl (regionBatchPut_sorted R b s.store (hI s.store (by simp [BState.stores])))
+
+theorem delete_served_sorted (s : BState) (R : Region) (b : List Item) (hI : IAll OMap.Sorted s) :
+    IAll OMap.Sorted (served (execDelete s R b) b) :=
+  IAll_served _ s (execDelete s R b) _ hI rfl (regionBatchDelete_sorted R _ s.store (hI s.store (by simp [BState.stores])))
 
 end CGV.RawKV
